@@ -38,6 +38,10 @@ TYPE_VALUES: Dict[str, List[Any]] = {
     "boolean": [None, False, None, True, None, None, None, None, None],
 }
 
+# the decimal a user would write for the stored float32 value at the same index: as a double it is a DIFFERENT
+# number than the stored one (0.1 < f32(0.1)); literals of this form are what users pass to filters on float columns
+FLOAT_DECIMALS: List[float] = [float("-inf"), -3.0e38, -0.5, 0.0, 1e-45, 0.1, 16777216.0, 3.0e38, float("inf")]
+
 FLOAT_TYPES = ("double", "float")
 ALL_TYPES = list(TYPE_VALUES)
 
